@@ -24,7 +24,7 @@ theorem floatGuard_spec (c : FCls) : floatGuardRejects c = true ↔ c ≠ .finit
     branch (int — which includes bool —, float with `int(x)` guarded against OverflowError / ValueError (fix A6), None, str,
     anything else), and the OverflowError handler of `coerce_float`. Re-ordering, dropping or changing a branch re-opens it. -/
 theorem coerceInt_branches_spec :
-    coerceIntBranches = [("int", "identity"), ("float", "int-if-equal-guarded"), ("None", "raise"),
+    coerceIntBranches = [("int", "int()"), ("float", "int-if-equal-guarded"), ("None", "raise"),
                          ("str", "int10-else-integral-float"), ("else", "raise")] ∧ floatCatchesOverflow = true := by decide
 
 theorem floatChecked_ok {c : FCls} {r pv : PV} (h : floatChecked c r = .ok pv) : pv = r ∧ c = .finite := by
